@@ -19,11 +19,12 @@ CORR_HEADER = ("From Coq Require Import ZArith List String.\n"
                "Open Scope string_scope.\nOpen Scope Z_scope.\n")
 CHECK_FN = "check_c19"
 SHARD = 40
-RULE = ("one case = one run of the real Simulator with a StochasticNetwork: 0-4 stations, more sessions than stations "
+RULE = ("stream 1: one case = one run of the real Simulator with a StochasticNetwork: 0-4 stations, more sessions than stations "
         "(arrival ties, one-period stays, stays overlapping so that a queue forms), early_departure on/off, "
         "uncontrolled / scripted-random / sorted (FCFS) scheduler, random.seed(k); the state after EVERY network call "
         "(every plugin, unplug and the post_charging_update of every period) is compared; distinct = distinct "
-        "(scenario, seed); non-trivial = a queue formed at some point")
+        "(scenario, seed); non-trivial = a queue formed at some point; stream 2 (direct): the same network calls "
+        "for an arbitrary well-formed history (longer queues, arbitrary fully-charged sets, stale Unplug events)")
 ASSUMPTIONS = ["each session is plugged in once and unplugged once, after its plugin (C01); the monitor re-checks it on every recorded run",
                "EV objects are identified with their session ids; random.choice is an arbitrary index into the free list",
                "theorems are about Model/StochNet.v; the model is tied to stochastic_network.py by the per-call state comparison "
@@ -54,6 +55,38 @@ def rand_scenario(rng, tier="quick"):
                 sched=rng.choice(["unc", "unc", "scr", "scr", "fcfs"]),
                 sched_seed=rng.randint(0, 10 ** 6), max_recompute=rng.choice([None, 1, 2]),
                 seed=rng.randint(0, 10 ** 6))
+
+
+def rand_direct(rng, tier="quick"):
+    """an arbitrary well-formed history of network calls (not produced by the simulator): longer queues,
+    arbitrary 'fully charged' sets, Unplug events long after an early departure"""
+    n = rng.choice([0, 1, 1, 2, 2, 3, 3, 4, 5])
+    m = rng.randint(n + 1, 3 * n + 6)
+    sessions = [dict(k=k, arrival=0, departure=1, energy=rng.choice([1.0, 5.0]), max_power=7.68) for k in range(m)]
+    todo = list(range(m))
+    rng.shuffle(todo)
+    present, arrived, ops = [], [], []
+    p_arr, p_dep, p_full = rng.choice([0.3, 0.5, 0.7]), rng.choice([0.15, 0.3]), rng.choice([0.1, 0.3, 0.6])
+    while todo or present:
+        r = rng.random()
+        if todo and r < p_arr:
+            k = todo.pop()
+            present.append(k)
+            arrived.append(k)
+            ops.append(["A", k])
+        elif present and r < p_arr + p_dep:
+            k = present.pop(rng.randrange(len(present)))
+            ops.append(["D", k])
+        else:
+            ops.append(["P", sorted(k for k in arrived if rng.random() < p_full)])
+    ops.append(["P", []])
+    return dict(n=n, sessions=sessions, early=rng.random() < 0.75, sched="direct", sched_seed=0,
+                max_recompute=None, seed=rng.randint(0, 10 ** 6), ops=ops)
+
+
+def extra_streams(rng, tier):
+    n = {"quick": 140, "thorough": 2500}[tier]
+    return [("d", CORR_HEADER, CHECK_FN, [make_case(rand_direct(rng, tier)) for _ in range(n)])]
 
 
 def _scheduler(sc):
@@ -160,21 +193,38 @@ def run_impl(sc):
         se_num[name] = SESS0 + s["k"]
         evs.append(EV(s["arrival"], s["departure"], s["energy"], "ST-00", name,
                       Battery(100, 0, s["max_power"])))
-    events = EventQueue([PluginEvent(ev.arrival, ev) for ev in evs])
-    sim = Simulator(net, _scheduler(sc), events, datetime(2020, 1, 1), period=5, verbose=False)
     saved_mod, saved_state = snmod.random, pyrandom.getstate()
     crash = None
+    iterations = None
     try:
         snmod.random = shim
         pyrandom.seed(sc["seed"])
-        sim.run()
+        if "ops" in sc:
+            # direct drive: the calls the simulator would make, for an arbitrary well-formed history
+            by_k = {s["k"]: ev for s, ev in zip(sc["sessions"], evs)}
+            for op in sc["ops"]:
+                if op[0] == "A":
+                    net.plugin(by_k[op[1]])
+                elif op[0] == "D":
+                    net.unplug(by_k[op[1]].station_id, by_k[op[1]].session_id)
+                else:
+                    for k, ev in by_k.items():
+                        ev._energy_delivered = ev.requested_energy if k in op[1] else 0
+                    net.post_charging_update()
+        else:
+            events = EventQueue([PluginEvent(ev.arrival, ev) for ev in evs])
+            sim = Simulator(net, _scheduler(sc), events, datetime(2020, 1, 1), period=5, verbose=False)
+            sim.run()
+            iterations = int(sim.iteration)
     except Exception as ex:  # noqa
         crash = "%s: %s" % (type(ex).__name__, str(ex)[:120])
     finally:
         snmod.random = saved_mod
         pyrandom.setstate(saved_state)
+    if iterations is None:
+        iterations = sum(1 for op, _ in net.rlog if op[0] == "P")
     return dict(steps=[[op, sn] for op, sn in net.rlog], choices=list(shim.log), crash=crash,
-                iterations=int(sim.iteration),
+                iterations=iterations,
                 energies=[float(ev.energy_delivered) for ev in evs])
 
 
@@ -220,7 +270,7 @@ def make_case(sc):
                              "earlyunplug" if early_used else ("queue" if queued else "noqueue"))
     return dict(input=sc, impl=impl, coq=case_coq(sc, impl), ambiguous=False, kind=kind,
                 sig=[sc["n"], sc["early"], sc["sched"], sc["seed"], sc["sched_seed"],
-                     [[s["k"], s["arrival"], s["departure"], s["energy"]] for s in sc["sessions"]]],
+                     [[s["k"], s["arrival"], s["departure"], s["energy"]] for s in sc["sessions"]], sc.get("ops")],
                 nontrivial=queued)
 
 
@@ -348,7 +398,7 @@ def monitor(case):
 def search(rng, budget_s, broken):
     t0 = time.time()
     while time.time() - t0 < budget_s:
-        c = make_case(rand_scenario(rng))
+        c = make_case(rand_scenario(rng) if rng.random() < 0.6 else rand_direct(rng))
         r = monitor(c)
         if r:
             return dict(case=c["input"], impl=dict(steps=c["impl"]["steps"][-6:], choices=c["impl"]["choices"],
